@@ -23,55 +23,69 @@ Lemma allpos_app a b : allpos (a ++ b) <-> allpos a /\ allpos b.
 Proof. apply Forall_app. Qed.
 
 (* ---------------- the two loops ---------------- *)
+Lemma more_true t : more t = true <-> t <> [].
+Proof. destruct t; simpl; split; congruence. Qed.
+
 Lemma prune_front_spec : forall cs start stop shape off cs1 start1 stop1 shape1 off1,
   prune_front cs start stop shape off = (cs1, start1, stop1, shape1, off1) ->
   exists pre, cs = pre ++ cs1 /\ off1 = off + zsum pre /\ start1 = start - zsum pre /\
               stop1 = stop - zsum pre /\ shape1 = shape - zsum pre /\
-              (0 <= start -> 0 <= start1) /\
-              (match cs1 with [] => True | c :: _ => start1 < c end).
+              (0 <= start -> 0 <= start1) /\ (cs <> [] -> cs1 <> []) /\
+              ((2 <= length cs1)%nat -> start1 < hd 0 cs1).
 Proof.
   induction cs as [|c t IH]; intros start stop shape off cs1 start1 stop1 shape1 off1 H; simpl in H.
-  - inversion H; subst. exists []. simpl. repeat split; lia.
-  - destruct (c <=? start) eqn:E.
-    + apply IH in H. destruct H as (pre & -> & -> & -> & -> & -> & Hs & Hh).
-      exists (c :: pre). simpl. repeat split; try lia. exact Hh.
-    + inversion H; subst. exists []. simpl. repeat split; lia.
+  - inversion H; subst. exists []. simpl. repeat split; try lia; auto.
+  - destruct (more t) eqn:M; cbn [andb] in H.
+    + destruct (c <=? start) eqn:E.
+      * apply IH in H. destruct H as (pre & -> & -> & -> & -> & -> & Hs & Hn & Hh).
+        exists (c :: pre). simpl. repeat split; try lia.
+        -- intros _. apply Hn. intro X. apply app_eq_nil in X. destruct X as [-> ->]. simpl in M. discriminate.
+      * inversion H; subst. exists []. simpl. repeat split; try lia; congruence.
+    + inversion H; subst. exists []. destruct t; [|discriminate]. simpl. repeat split; try lia; congruence.
 Qed.
 
 Lemma prune_back_spec : forall rcs stop shape rcs2 shape2,
   prune_back rcs stop shape = (rcs2, shape2) ->
   exists post, rcs = post ++ rcs2 /\ shape2 = shape - zsum post /\
-               (stop <= shape -> stop <= shape2) /\
-               (match rcs2 with [] => True | c :: _ => shape2 - stop < c end).
+               (stop <= shape -> stop <= shape2) /\ (rcs <> [] -> rcs2 <> []) /\
+               ((2 <= length rcs2)%nat -> shape2 - stop < hd 0 rcs2).
 Proof.
   induction rcs as [|c t IH]; intros stop shape rcs2 shape2 H; simpl in H.
-  - inversion H; subst. exists []. simpl. repeat split; lia.
-  - destruct (c <=? shape - stop) eqn:E.
-    + apply IH in H. destruct H as (post & -> & -> & Hs & Hh).
-      exists (c :: post). simpl. repeat split; try lia. exact Hh.
-    + inversion H; subst. exists []. simpl. repeat split; lia.
+  - inversion H; subst. exists []. simpl. repeat split; try lia; auto.
+  - destruct (more t) eqn:M; cbn [andb] in H.
+    + destruct (c <=? shape - stop) eqn:E.
+      * apply IH in H. destruct H as (post & -> & -> & Hs & Hn & Hh).
+        exists (c :: post). simpl. repeat split; try lia.
+        -- intros _. apply Hn. intro X. apply app_eq_nil in X. destruct X as [-> ->]. discriminate.
+      * inversion H; subst. exists []. simpl. repeat split; try lia; congruence.
+    + inversion H; subst. exists []. destruct t; [|discriminate]. simpl. repeat split; try lia; congruence.
 Qed.
 
 Lemma prune_core_spec cs start stop cs2 start1 stop1 off :
   prune_core cs start stop = (cs2, start1, stop1, off) ->
   exists pre post, cs = pre ++ cs2 ++ post /\ off = zsum pre /\ start1 = start - zsum pre /\ stop1 = stop - zsum pre /\
-     (0 <= start -> 0 <= start1) /\ (stop <= zsum cs -> stop1 <= zsum cs2) /\
-     (match cs2 with [] => True | c :: _ => start1 < c end) /\
-     (match rev cs2 with [] => True | c :: _ => zsum cs2 - c < stop1 end).
+     (0 <= start -> 0 <= start1) /\ (stop <= zsum cs -> stop1 <= zsum cs2) /\ (cs <> [] -> cs2 <> []) /\
+     ((2 <= length (cs2 ++ post))%nat -> start1 < hd 0 (cs2 ++ post)) /\
+     ((2 <= length cs2)%nat -> zsum cs2 - last cs2 0 < stop1).
 Proof.
   unfold prune_core.
   destruct (prune_front cs start stop (zsum cs) 0) as [[[[cs1 s1] e1] sh1] o1] eqn:F.
   destruct (prune_back (rev cs1) e1 sh1) as [rcs2 sh2] eqn:B.
   intro H. inversion H; subst. clear H.
-  apply prune_front_spec in F. destruct F as (pre & -> & -> & -> & -> & -> & Hs & Hh).
-  apply prune_back_spec in B. destruct B as (post & Hrev & -> & He & Hl).
+  apply prune_front_spec in F. destruct F as (pre & -> & -> & -> & -> & -> & Hs & Hn & Hh).
+  apply prune_back_spec in B. destruct B as (post & Hrev & -> & He & Hn2 & Hl).
   assert (Hcs1 : cs1 = rev rcs2 ++ rev post).
   { rewrite <- (rev_involutive cs1), Hrev, rev_app_distr. reflexivity. }
   exists pre, (rev post). subst cs1.
-  rewrite !zsum_app, !zsum_rev in *. rewrite rev_involutive.
+  rewrite !zsum_app, !zsum_rev in *.
   repeat split; try lia.
-  - destruct (rev rcs2) as [|c r] eqn:R; simpl in *; auto.
-  - destruct rcs2 as [|c r]; simpl in *; auto. lia.
+  - intros N. assert (N1 : rev rcs2 ++ rev post <> []).
+    { apply Hn. exact N. }
+    intro X. apply (f_equal (@rev Z)) in X. rewrite rev_involutive in X. simpl in X.
+    apply Hn2; [|exact X]. rewrite Hrev. intro Y. apply N1.
+    apply app_eq_nil in Y. destruct Y as [-> ->]. reflexivity.
+  - rewrite rev_length. intro L. specialize (Hl L).
+    destruct rcs2 as [|c r]; [simpl in L; lia|]. simpl rev. rewrite last_last. cbn [hd] in Hl. change (zsum (c :: r)) with (c + zsum r) in *. lia.
 Qed.
 
 (* result is a contiguous sub-list of the original chunk list; the offset is the start of the first kept chunk *)
@@ -95,6 +109,13 @@ Proof.
   repeat split; lia.
 Qed.
 
+(* at least one existing chunk is always kept (so that no zero-size chunk is ever requested from the store) *)
+Lemma prune_keeps_one cs start stop : cs <> [] -> let '(cs2, _, _, _) := prune_core cs start stop in cs2 <> [].
+Proof.
+  intro N. destruct (prune_core cs start stop) as [[[cs2 s1] e1] off] eqn:E.
+  apply prune_core_spec in E. destruct E as (pre & post & _ & _ & _ & _ & _ & _ & Hn & _). auto.
+Qed.
+
 (* no kept chunk could have been dropped: the first and the last kept chunk both contain selected elements *)
 Lemma prune_minimal cs start stop :
   0 <= start -> start < stop -> stop <= zsum cs ->
@@ -103,15 +124,17 @@ Lemma prune_minimal cs start stop :
 Proof.
   intros H0 H1 H2.
   destruct (prune_core cs start stop) as [[[cs2 s1] e1] off] eqn:E.
-  apply prune_core_spec in E. destruct E as (pre & post & -> & -> & -> & -> & Ha & Hb & Hh & Hl).
+  apply prune_core_spec in E. destruct E as (pre & post & Hcs & -> & -> & -> & Ha & Hb & Hn & Hh & Hl).
   assert (N : cs2 <> []).
-  { intro; subst cs2. simpl in Hb. rewrite !zsum_app in *. simpl in *. lia. }
-  split; [exact N|]. split.
-  - destruct cs2; [congruence|]. exact Hh.
-  - destruct (rev cs2) as [|c r] eqn:R.
-    + apply (f_equal (@rev Z)) in R. rewrite rev_involutive in R. simpl in R. congruence.
-    + assert (cs2 = rev r ++ [c]) by (rewrite <- (rev_involutive cs2), R; reflexivity).
-      subst cs2. rewrite last_last. exact Hl.
+  { apply Hn. intro X. rewrite X in *. simpl in *. lia. }
+  split; [exact N|]. subst cs. rewrite !zsum_app in *. split.
+  - destruct cs2 as [|c r]; [congruence|]. simpl hd. simpl in Hh.
+    destruct (r ++ post) as [|c' r'] eqn:R.
+    + apply app_eq_nil in R. destruct R as [-> ->]. simpl in *. lia.
+    + apply Hh. simpl. lia.
+  - destruct cs2 as [|c r]; [congruence|]. destruct r as [|c' r].
+    + simpl. lia.
+    + apply Hl. simpl. lia.
 Qed.
 
 (* ---------------- loc / cstart ---------------- *)
@@ -254,9 +277,9 @@ Proof.
   - unfold mk_axis, prune_axis.
     destruct (prune_core cs lo hi) as [[[cs2 s1] e1] off] eqn:E.
     apply prune_core_spec in E.
-    destruct E as (pre & post & Hcs & -> & -> & -> & Ha & Hb & _).
+    destruct E as (pre & post & Hcs & -> & -> & -> & Ha & Hb & Hn & _).
     assert (N : cs2 <> []).
-    { intro; subst cs2. simpl in Hb. subst cs. rewrite !zsum_app in *. simpl in *. lia. }
+    { apply Hn. intro X. rewrite X in *. simpl in *. lia. }
     assert (Hm : match cs2 with [] => [0] | _ :: _ => cs2 end = cs2) by (destruct cs2; congruence).
     rewrite Hm. clear Hm.
     assert (P2 : allpos cs2).
@@ -296,9 +319,9 @@ Proof.
   - unfold mk_axis, prune_axis.
     destruct (prune_core cs lo hi) as [[[cs2 s1] e1] off] eqn:E.
     apply prune_core_spec in E.
-    destruct E as (pre & post & Hcs & -> & -> & -> & Ha & Hb & _).
+    destruct E as (pre & post & Hcs & -> & -> & -> & Ha & Hb & Hn & _).
     assert (N : cs2 <> []).
-    { intro; subst cs2. simpl in Hb. subst cs. rewrite !zsum_app in *. simpl in *. lia. }
+    { apply Hn. intro X. rewrite X in *. simpl in *. lia. }
     assert (Hm : match cs2 with [] => [0] | _ :: _ => cs2 end = cs2) by (destruct cs2; congruence).
     rewrite Hm. clear Hm.
     assert (P2 : allpos cs2).
